@@ -1622,12 +1622,15 @@ class Composite(Parameter):
         self._validate_attribs(val, self.attribs)
 
     def _post_setter(self, obj, val):
-        if obj is None:
-            for a, v in zip(self.attribs, val):
-                setattr(self.objtype, a, v)
-        else:
-            for a, v in zip(self.attribs, val):
-                setattr(obj, a, v)
+        target = self.objtype if obj is None else obj
+        # every component is checked before any is assigned: a rejected
+        # component must not leave the others already changed
+        for a, v in zip(self.attribs, val):
+            component = target.param[a] if a in target.param else None
+            if component is not None and not (component.allow_refs and obj is not None):
+                component._validate(v)
+        for a, v in zip(self.attribs, val):
+            setattr(target, a, v)
 
 #-----------------------------------------------------------------------------
 # Selector
